@@ -93,6 +93,8 @@ def coq_type(t):
         return "(list (%s * %s))" % (coq_type(t[1]), coq_type(t[2]))
     if isinstance(t, tuple) and t[0] == "prod":
         return "(%s * %s)%%type" % (coq_type(t[1]), coq_type(t[2]))
+    if isinstance(t, tuple) and t[0] == "outcome":        # value or designated exception (front-end py2coq_eff.py)
+        return "(py_outcome %s exc)" % coq_type(t[1])
     if isinstance(t, str) and t not in ("obj", "fixed") and re.fullmatch(r"[A-Za-z]\w*", t):
         return t                              # an opaque / record type declared by the spec (parse_type checked it)
     raise Unsupported("type %r has no Coq rendering" % (t,))
@@ -294,7 +296,7 @@ def has_node(stmts, kinds):
 
 
 def _stmt_exits(s):
-    if isinstance(s, (ast.Return, ast.Continue, ast.Break)):
+    if isinstance(s, (ast.Return, ast.Continue, ast.Break, ast.Raise)):
         return 0
     if isinstance(s, ast.If):
         return exits(s.body) + exits(s.orelse)
@@ -475,6 +477,14 @@ class FnTranslator:
 
     def err(self, msg, node):
         return Unsupported(msg, node, self.qual)
+
+    # hooks of the front-end tools/py2coq_eff.py (effects): locals that a statement list changes without an
+    # assignment in the source (the event log), and the element type of the event log
+    def hidden_assigned(self, stmts):
+        return []
+
+    def evlog_elem(self):
+        return "nat"
 
     # -- interface ----------------------------------------------------------------------------
     def iface(self):
@@ -2002,7 +2012,7 @@ class FnTranslator:
         for v in list(bound) + ([idx] if idx else []):
             if v in env:
                 raise self.err("loop variable %r re-uses a name that is already bound" % v, s)
-        body_assigned = assigned_names(s.body)
+        body_assigned = assigned_names(s.body) + [v for v in self.hidden_assigned(s.body) if v in env]
         # loop-carried locals = bound before the loop and assigned in its body; their order in the state
         # record is the order of their first occurrence in the body (source order), so that neither a
         # renaming nor a reordering of the initialisations before the loop changes the generated text
@@ -2013,7 +2023,7 @@ class FnTranslator:
                 occ.setdefault(nd.id, len(occ))
             elif attr_key(nd) and "." in attr_key(nd):
                 occ.setdefault(attr_var(attr_key(nd)), len(occ))
-        carried = sorted([(v, env[v]) for v in env if v in body_assigned], key=lambda vt: occ[vt[0]])
+        carried = sorted([(v, env[v]) for v in env if v in body_assigned], key=lambda vt: occ.get(vt[0], len(occ)))
         for v, t in carried:
             if t == "obj":
                 raise self.err("assignment to the object parameter %r" % v, s)
@@ -2237,8 +2247,8 @@ class FnTranslator:
         if self.events:
             if "evlog" in env:
                 raise self.err("name clash on 'evlog'", self.node)
-            env["evlog"] = ("list", "nat")
-            prelude.append("let evlog := (@nil nat) in")
+            env["evlog"] = ("list", self.evlog_elem())
+            prelude.append("let evlog := (@nil %s) in" % coq_type(self.evlog_elem()))
         ctx = Ctx(self)
 
         def fall_off(e):
